@@ -9,7 +9,7 @@ From SFC.Gen Require Import Fx Zone.
 From SFC.GenMarket Require Import Market MarketProofs.
 From SFC.GenAsset Require Import Common CommonProofs Money MoneyProofs Deposit DepositProofs Weighting WeightingProofs.
 From SFC.GenTax Require Import Tax Dividends TaxProofs DividendProofs.
-From SFC.GenMain Require Import Program Classes Main.
+From SFC.GenMain2 Require Import Program Classes Main.
 Import ListNotations.
 Local Open Scope string_scope.
 
